@@ -16,6 +16,11 @@ KINDS = {"grad_value", "backward_error"}
 
 def run(ctx):
     if ctx.replay:
+        import json as _json
+        if (_json.load(open(ctx.replay))["replay"] or {}).get("spec") == "NormDrop":
+            from .. import hist_common as HC
+            from . import c13
+            return HC.replay_file(ctx, ctx.replay, {"input_grad"}, "NormDrop", c13.RP, set_consts=("Acts",), raw_consts=("StatsSet",))
         return CC.replay_file(ctx, ctx.replay, KINDS, replayer=CC.NN_REPLAYER)
     rep = core.Report(ctx, "model_checking", assumptions=[
         "full per-axis geometry grid in 1-D (conv1d, pool1d); 2-D operations on pairs of per-axis geometries from a reduced set (quick) / the full small grid (thorough)",
@@ -24,6 +29,9 @@ def run(ctx):
     rep.rule = "every case emitted by TLC for the nn families; distinct by (op, arguments/geometry, shapes, value pattern)"
     cases = CC.nn_cases(ctx, rep, with_grad=True)
     CC.replay(ctx, rep, cases, KINDS, replayer=CC.NN_REPLAYER, spec="NNCatalog")
+    # the stateful layer form: BatchNorm modules over call histories (spec/NormDrop.tla)
+    from . import c13
+    c13.bn_history_runs(ctx, rep, {"input_grad"}, {"mode", "fwd", "bnbwd"}, 5 if ctx.quick else 6, "bnbwd")
     rep.exhaustive = True
     rep.extra["cases"] = len(cases)
     return rep.finish()
